@@ -48,6 +48,20 @@ import (
 // Alphabet: A = "a:b" (v5) connect {resume+expiry 60, clean+expiry 60, no expiry},
 // takeover (connect while connected), DISCONNECT, drop, subscribe c, unsubscribe c,
 // QoS 1 publish to c {plain, retained, retained clear}, PUBACK by A, 40 s tick.
+//
+// Menu "quota" (arg "be=<backend>,sc=quota[,deep]"): every history starts with the fixed
+// prefix [con|A|r, sub|A|c|o]: A connects with Receive Maximum 1 (resume + expiry 60) and
+// subscribes with QoS 1; the alphabet is QoS 1 publish to c (pool 3), PUBACK by A, drop,
+// reconnect {Receive Maximum 1, default} (deep: takeover, 40 s tick, pool 4). With one
+// message unacknowledged every further message is held back by the broker until A
+// acknowledges: the publisher has its PUBACK, the subscriber has seen nothing, and the
+// message is owed to the persistent session exactly like one that was sent (the obligation
+// of (a) does not depend on whether the broker has sent the message yet). A lost message
+// that was published while A's Receive Maximum was used up (A connected, as many
+// deliveries unacknowledged on its connection as its Receive Maximum) carries the key
+// suffix ":held-back-behind-receive-maximum", unless the crash lies inside the publish
+// operation of that very message (between the publisher's PUBACK and the store write: the
+// same window, and the same key, as for a message that is sent at once).
 
 type c21Model struct {
 	subs   map[string]bool     // "A|c"
@@ -59,11 +73,12 @@ type c21Model struct {
 	class  map[string]string
 	cand   []string // in-flight candidates of the publish in progress
 	newRet string
+	held   map[string]bool // "A|m2": published while A's Receive Maximum was used up
 }
 
 func newC21Model() *c21Model {
 	return &c21Model{subs: map[string]bool{}, ret: map[string][]string{}, infl: map[string]bool{}, kind: map[string]string{}, up: map[string]bool{},
-		discAt: map[string]int64{}, class: map[string]string{}}
+		discAt: map[string]int64{}, class: map[string]string{}, held: map[string]bool{}}
 }
 
 func (m *c21Model) endSession(n, why string) {
@@ -139,6 +154,9 @@ func (m *c21Model) before(op string, s *stScen) {
 				n := stOwner(k)
 				if k == n+"|"+f[1] && m.kind[n] == "persistent" {
 					m.cand = append(m.cand, n+"|"+payload)
+					if s.Up[n] && s.Mode[n] == "r" && len(s.Pend[n]) >= 1 {
+						m.held[n+"|"+payload] = true
+					}
 				}
 			}
 		}
@@ -169,7 +187,7 @@ func (m *c21Model) after(op string, got map[string][]ref.Packet) {
 			if p.Type == ref.CONNACK && p.ReasonCode == 0 {
 				m.up[n] = true
 				switch f[2] {
-				case "k", "c":
+				case "k", "c", "r":
 					m.kind[n] = "persistent"
 				default:
 					m.kind[n] = "ephemeral"
@@ -349,7 +367,15 @@ func c21ClientRecord(h mqtt.Hook, id string) string {
 	return ""
 }
 
-func c21Next(deep bool, s *stScen) []string {
+// c21Prefix is the fixed start of every history of a menu.
+func c21Prefix(sc string) []string {
+	if sc == "quota" {
+		return []string{"con|A|r", "sub|A|c|o"}
+	}
+	return nil
+}
+
+func c21Next(sc string, deep bool, s *stScen) []string {
 	var next []string
 	add := func(ok bool, ops ...string) {
 		if ok {
@@ -359,6 +385,14 @@ func c21Next(deep bool, s *stScen) []string {
 	d := 0
 	if deep {
 		d = 1
+	}
+	if sc == "quota" {
+		add(s.Pubs < 3+d, "pub|c|0|0")
+		add(s.Up["A"] && len(s.Pend["A"]) > 0, "ack|A")
+		add(s.Up["A"] && s.NDisc < 1+d, "drop|A")
+		add((!s.Up["A"] || deep) && s.Conns["A"] < 2+d, "con|A|r", "con|A|k")
+		add(deep && s.Ticks < 1, "tick")
+		return next
 	}
 	add(s.Conns["A"] < 2+d, "con|A|k", "con|A|c", "con|A|n")
 	add(s.Up["A"] && s.NDisc < 1+d, "dis|A", "drop|A")
@@ -380,6 +414,14 @@ func c21Crash(be string, deep bool, hist []string, k int, opKind string) (viol [
 	s.logf("=== CRASH after storage write %d (next, dropped: %s) at t=%dms; write log: %v", k, r.crashEv, r.nowMs, s.Wrap.Log)
 	s.logf("acknowledged-state model: subscriptions=%v retained=%v in-flight=%v session kinds=%v classes=%v", explore.SortedKeys(r.m.subs), r.m.ret, explore.SortedKeys(r.m.infl), r.m.kind, r.m.class)
 	viol = append(viol, runtimeViolations(s.W)...)
+	// what the dying broker itself still holds in memory (used only to name the shape of a
+	// loss: a message the live broker had already forgotten was not lost by the crash)
+	mem := map[string]bool{}
+	for id, cl := range s.W.S.Clients.GetAll() {
+		for _, pk := range cl.State.Inflight.GetAll(false) {
+			mem[id+"|"+string(pk.Payload)] = true
+		}
+	}
 	s.W.End()
 	s.Wrap.Off = true
 	stStop(s.Wrap.Inner) // the dead process's handle on the store goes away; nothing is written
@@ -431,6 +473,9 @@ func c21Crash(be string, deep bool, hist []string, k int, opKind string) (viol [
 		counters["obligations_checked"]++
 		n := stOwner(key)
 		id, payload := stClients[n].ID, key[len(n)+1:]
+		if m.held[key] {
+			counters["held_back_obligations_checked"]++
+		}
 		found := false
 		for k2, it := range after.Inflight {
 			if stOwner(k2) == id && it["Payload"] == fmt.Sprintf("%q", payload) {
@@ -438,7 +483,7 @@ func c21Crash(be string, deep bool, hist []string, k int, opKind string) (viol [
 			}
 		}
 		if !found {
-			shape := where
+			shape, note := where, ""
 			zero := false
 			for k2 := range after.Inflight {
 				zero = zero || (stOwner(k2) == id && strings.HasSuffix(k2, "|0"))
@@ -447,8 +492,19 @@ func c21Crash(be string, deep bool, hist []string, k int, opKind string) (viol [
 				shape = "session-not-restored"
 			} else if zero {
 				shape = "restored-under-packet-id-0"
+			} else if !mem[id+"|"+payload] {
+				// the broker had dropped the message from the session's in-flight set before it
+				// died (its store record, if one was left behind, was overwritten or deleted
+				// later): the crash point is not part of the shape
+				shape = "forgotten-by-live-broker-before-crash"
+				note = "; the broker that died did not hold the message in memory any more either"
+			} else if m.held[key] && !(r.crashed && opKind == "pub" && payload == fmt.Sprintf("m%d", s.Pubs)) {
+				// not the window between the publisher's PUBACK and the store write inside the
+				// publish operation of this very message (that window is the same for a
+				// message that is sent at once and keeps its key)
+				shape += ":held-back-behind-receive-maximum"
 			}
-			add("c21:lost:inflight:"+shape, fmt.Sprintf("message %q was acknowledged to its publisher while the persistent session %q held an acknowledged QoS 1 subscription, the session has not acknowledged it, but no in-flight message for it exists after the restart (sessions after restart: %v; in-flight after restart: %v)", payload, id, explore.SortedKeys(after.Sessions), after.Inflight))
+			add("c21:lost:inflight:"+shape, fmt.Sprintf("message %q was acknowledged to its publisher while the persistent session %q held an acknowledged QoS 1 subscription, the session has not acknowledged it, but no in-flight message for it exists after the restart%s (sessions after restart: %v; in-flight after restart: %v)", payload, id, note, explore.SortedKeys(after.Sessions), after.Inflight))
 		}
 	}
 	// (b)
@@ -494,14 +550,16 @@ func sortedMapKeys(m map[string][]string) []string {
 func c21RunFn(arg string) explore.HistFn {
 	be := c20Arg(arg, "be", "bolt")
 	deep := strings.Contains(arg, "deep")
-	return func(hist []string) explore.HistResult {
+	sc := c20Arg(arg, "sc", "")
+	return func(suffix []string) explore.HistResult {
+		hist := append(append([]string{}, c21Prefix(sc)...), suffix...)
 		store := stNewStore(be)
 		base := c21Exec(store, deep, hist, -1)
 		s := base.s
 		s.H.last = true
 		// the store is part of the state: equal brokers on different store contents differ after a crash
 		key := world.Canon(s.W.S) + s.modelKey() + "|store:" + stRead(s.Wrap.Inner).String()
-		next := c21Next(deep, s)
+		next := c21Next(sc, deep, s)
 		viol := append([]explore.Violation{}, s.Viol...)
 		viol = append(viol, runtimeViolations(s.W)...)
 		// (c) is judged on the complete run, for the writes of the last operation
@@ -565,12 +623,25 @@ func init() {
 		}
 		totals := map[string]int64{}
 		distinct := int64(0)
-		for _, be := range backends {
-			st := explore.RunBFS(c, "c21", "be="+be+suffix, depth, per)
-			for k, v := range st.Counters {
-				totals[k] += v
+		// the small decisive menu first: it is exhausted within its bounds long before its budget
+		for _, menu := range []string{",sc=quota", ""} {
+			for _, be := range backends {
+				d, budget := depth, per
+				if menu != "" {
+					budget = per / 2
+					if c.Quick() {
+						d = 5
+					}
+				}
+				st := explore.RunBFS(c, "c21", "be="+be+menu+suffix, d, budget)
+				for k, v := range st.Counters {
+					totals[k] += v
+				}
+				distinct += st.States
 			}
-			distinct += st.States
+		}
+		if totals["held_back_obligations_checked"] == 0 && fullRun() {
+			c.Rep.Add(explore.Violation{Key: "internal:vacuous:c21-quota-no-held-back-obligation", Msg: "the Receive Maximum menu never crashed a broker that owed a held-back message to a persistent session"})
 		}
 		for k, v := range totals {
 			if k != "evaluations" {
